@@ -55,8 +55,12 @@ NoBlock == <<[t |-> "noblock"]>>
 \* ---------------------------------------------------------------- operators (C06)
 TruncDiv(a, b) == LET q == Abs(a) \div Abs(b) IN IF (a < 0) = (b < 0) THEN q ELSE -q
 
+\* (the largest int is written 9223372036854775807 and read as 2^31 - 1 by the model: comparisons with ordinary numbers come out
+\* the same, arithmetic on it does not and is left unspecified)
+IntBig(a) == a >= Lim \/ a <= -Lim
 IntOp(op, a, b, st) ==
-  CASE op = "+"  -> Ok(I(a + b), st)
+  CASE op \in {"+", "-", "*", "/"} /\ (IntBig(a) \/ IntBig(b)) -> Unspec(st)
+    [] op = "+"  -> Ok(I(a + b), st)
     [] op = "-"  -> Ok(I(a - b), st)
     [] op = "*"  -> Ok(I(a * b), st)
     [] op = "/"  -> IF b = 0 THEN Err(st) ELSE Ok(I(TruncDiv(a, b)), st)
